@@ -18,6 +18,7 @@ RULE = (
     "inline/image after their container); parent/children/siblings/next/previous are mutually consistent; rendering the same "
     "list twice gives the same HTML and leaves every token equal to a deep copy taken before; a deep copy renders the same. "
     "Non-trivial = stream with >=1 token having children or attrs or meta; distinct by (conf id, source)."
+    " After a restored token was given an attribute, all other and all later restorations still equal their originals; a stream decorated with data-line/class attributes renders identically three times."
 )
 ASSUMPTIONS = ["token equality = dataclass equality of markdown_it.token.Token", "'with or without children' is read as the children parameter of as_dict"]
 
